@@ -90,6 +90,8 @@ def translate_all(repo):
                 term = ".body " + t.stmts(node.body)
             except Unsupported as u:
                 term = ".unsupported %s" % lstr(str(u))
+            except Exception as exc:        # noqa: BLE001
+                term = ".unsupported %s" % lstr("translator: %s" % type(exc).__name__)
             out.append((node.name, term))
         elif (isinstance(node, ast.Assign) and len(node.targets) == 1 and isinstance(node.targets[0], ast.Name)
               and isinstance(node.value, ast.Call) and isinstance(node.value.func, ast.Attribute)
@@ -102,6 +104,8 @@ def translate_all(repo):
                 term = ".body [.ret (%s)]" % t.ex(lam.body)
             except Unsupported as u:
                 term = ".unsupported %s" % lstr(str(u))
+            except Exception as exc:        # noqa: BLE001
+                term = ".unsupported %s" % lstr("translator: %s" % type(exc).__name__)
             out.append((name, term))
     return out
 
